@@ -126,3 +126,9 @@ Lemma step3g_spec w o : (step3g w o).1 = (step3 w o).1 ∧
   | _ => (step3g w o).2 = (step3 w o).2
   end.
 Proof. unfold step3g. destruct (step3 w o) as [[w' er] a]. by destruct o. Qed.
+
+(** non-vacuity of [access_cached]: both caches of [exg_w] are stale; the first access rebuilds, the second is served from the cache *)
+Example ex_view_cached :
+  (length (backends exg_w) = 2)%nat ∧ (access exg_w 0).1.2 = true ∧ (access (access exg_w 0).1.1 0).1.2 = false ∧
+  tsgraph (hypergraph_to_species_graph false (access (access exg_w 0).1.1 0).2) = tsgraph exg_sg.
+Proof. split_and!; by vm_compute. Qed.
